@@ -1,5 +1,6 @@
 """C16 — selective generation keeps exactly the listed RPCs and a closed set of types."""
 import itertools
+import json
 import random
 import re
 
@@ -27,7 +28,7 @@ PARALLEL = 14
 
 def floors(tier):
     k = 1 if tier == "quick" else 3
-    return {"subsets": 25 * k, "types_required_usable": 300 * k, "types_absent_confirmed": 150 * k, "kept_rpc_calls": 100 * k, "internal_rpc_calls": 40 * k, "auto_populated_calls": 10 * k, "internal_cases": 8 * k,
+    return {"subsets": 25 * k, "types_required_usable": 300 * k, "types_absent_confirmed": 150 * k, "kept_rpc_calls": 100 * k, "internal_rpc_calls": 40 * k, "auto_populated_calls": 10 * k, "default_retry_probes": 80 * k, "default_deadlines_compared": 200 * k, "internal_cases": 8 * k,
             "rejections_checked": 3, "emptied_service_cases": 5 * k,
             "extended_operation_cases": 15 * k, "ext_op_flows": 10 * k}
 
@@ -259,6 +260,13 @@ def run_case(case):
         autopop = {n for n in api.info["autopop_candidates"] if case["internal"] or n in case["subset"]}
         pub["method_settings"] = [{"selector": f"{pkg}.{n}", "auto_populated_fields": ["request_id"]} for n in sorted(autopop)]
     api.aux["service-yaml"] = ("svc.yaml", apigen.service_yaml(api, publishing=pub))
+    # a gRPC service config naming every RPC (own timeout each, retry on UNAVAILABLE): selection decides which methods are public,
+    # never how they call - the default deadline and retry of a kept or internal method are those of the whole library
+    deadline_of = {fq: 31.0 + 13.0 * i for i, (fq, _p, _s, _m) in enumerate(rpcs)}
+    api.aux["retry-config"] = ("retry.json", json.dumps({"methodConfig": [
+        {"name": [{"service": fq.rsplit(".", 1)[0], "method": fq.rsplit(".", 1)[1]}], "timeout": f"{int(t_)}s",
+         "retryPolicy": {"maxAttempts": 5, "initialBackoff": "0.01s", "maxBackoff": "0.05s", "backoffMultiplier": 1.5,
+                         "retryableStatusCodes": ["UNAVAILABLE"]}} for fq, t_ in deadline_of.items()]}))
     req, g, lib = pipeline.build_and_generate(api, scratch)
     counters = {}
     if bad_kind:
@@ -309,7 +317,8 @@ def run_case(case):
         if "request_id" in x.DESCRIPTOR.fields_by_name:
             x.request_id = ""
         calls.append({"service": s.name, "rpc": m.name, "method": rdm.py_method(m.name), "req_type": m.input_type.lstrip("."),
-                      "request": rdm.b64(x.SerializeToString()), "path": f"/{p.package}.{s.name}/{m.name}"})
+                      "request": rdm.b64(x.SerializeToString()), "path": f"/{p.package}.{s.name}/{m.name}",
+                      "deadline": deadline_of[fq], "fault": not (m.client_streaming or m.server_streaming)})
     if case["internal"]:
         # "nothing is omitted": the unlisted RPCs live on as _<method> and must still reach their RPC, on both client kinds
         keptfq = {k[0] for k in kept}
@@ -321,7 +330,8 @@ def run_case(case):
             if "request_id" in x.DESCRIPTOR.fields_by_name:
                 x.request_id = ""
             calls.append({"service": s.name, "rpc": m.name, "method": "_" + rdm.py_method(m.name), "req_type": m.input_type.lstrip("."),
-                          "request": rdm.b64(x.SerializeToString()), "path": f"/{p.package}.{s.name}/{m.name}", "internal": True})
+                          "request": rdm.b64(x.SerializeToString()), "path": f"/{p.package}.{s.name}/{m.name}", "internal": True,
+                          "deadline": deadline_of[fq], "fault": not (m.client_streaming or m.server_streaming)})
     script = {"root_pkg": apigen.lib_root(api.info, api.options), "types": types, "calls": calls,
               "services": {sn: [rdm.py_method(m.name) for _, m in ms] for sn, ms in services.items()}}
     ev, rc, err = pipeline.run_runner("checks.c16", script, lib, timeout=200)
@@ -412,6 +422,22 @@ def run_case(case):
         e = r["event"]
         if e["method"] != c["path"]:
             bad("kept-rpc-path", {"rpc": c["rpc"], "seen": e["method"]})
+        # default deadline and retry: those of the service config entry, for kept and internal methods alike
+        if c.get("deadline"):
+            if c.get("fault"):
+                bump("default_retry_probes")
+                if r.get("attempts") != 2:
+                    bad("internal-rpc-default-retry" if c.get("internal") else "kept-rpc-default-retry",
+                        {"rpc": c["rpc"], "attempts": r.get("attempts"), "expected": 2})
+            for ev_, t0_, who in ((e, r.get("t0"), "sync"), (r.get("aio_event"), r.get("aio_t0"), "asyncio")):
+                if not ev_:
+                    continue
+                bump("default_deadlines_compared")
+                tr_, T_ = ev_.get("time_remaining"), c["deadline"]
+                stall_ = max(0.0, ev_["t"] - t0_) if t0_ is not None else 0.0
+                if tr_ is None or not (T_ - 3.0 - stall_ <= tr_ <= T_ + 1.5):
+                    bad("internal-rpc-default-deadline" if c.get("internal") else "kept-rpc-default-deadline",
+                        {"rpc": c["rpc"], "client": who, "time_remaining": tr_, "entry_timeout": T_}, client=who)
         got_m, sent_m = model.parse(c["req_type"], rdm.unb64(e["requests"][0])), model.parse(c["req_type"], rdm.unb64(c["request"]))
         if f"{c['service']}.{c['rpc']}" in autopop:
             # configured for auto-population (the probe leaves request_id unset): a fresh UUID4 arrives, on kept and on internal methods alike
@@ -491,8 +517,18 @@ def in_runner(script):
                 import grpc
                 clients[sn] = C(transport=C.get_transport_class("grpc")(channel=grpc.insecure_channel(srv.target)))
             mark = srv.mark()
-            getattr(clients[sn], c["method"])(request=lib.mk(c["req_type"], rt.unb64(c["request"])))
-            o["event"] = srv.since(mark)[0]
+            import time as _time
+            o["t0"] = _time.monotonic()
+            if c.get("fault"):
+                # the first attempt fails with UNAVAILABLE: the default retry of the method decides what happens next
+                srv.script(c["path"], [{"code": "UNAVAILABLE"}])
+            try:
+                getattr(clients[sn], c["method"])(request=lib.mk(c["req_type"], rt.unb64(c["request"])))
+            finally:
+                srv.script(c["path"], [])
+                evs_ = srv.since(mark)
+                o["attempts"] = len(evs_)
+            o["event"] = evs_[-1] if c.get("fault") else evs_[0]
         except BaseException as e:  # noqa
             o["error"] = rt.exc_info(e)
         out["calls"].append(o)
@@ -508,6 +544,8 @@ def in_runner(script):
                     C = getattr(root, cname + "AsyncClient")
                     ac[sn] = C(transport=C.get_transport_class("grpc_asyncio")(channel=grpc.aio.insecure_channel(srv.target)))
                 mark = srv.mark()
+                import time as _time
+                o["aio_t0"] = _time.monotonic()
                 ret = getattr(ac[sn], c["method"])(request=lib.mk(c["req_type"], rt.unb64(c["request"])))
                 if hasattr(ret, "__await__"):
                     ret = await ret
